@@ -408,13 +408,12 @@ def map(
             if layer["operation"] in ("sum", "nansum"):
                 layer["unit"] = layer["unit"] * dataz.unit
 
-    # Mask NaN values
-    mask = np.isnan(binned[-1, ...])
-    mask_vec = np.broadcast_to(mask.reshape(*mask.shape, 1), mask.shape + (3,))
-
     # Now we fill the arrays to be sent to the renderer, also constructing vectors
     counter = 0
     for ind in range(len(to_render)):
+        # Mask the NaN values of this layer (layers can differ in their operation)
+        mask = np.isnan(binned[counter, ...])
+        mask_vec = np.broadcast_to(mask.reshape(*mask.shape, 1), mask.shape + (3,))
         if scalar_layer[ind]:
             to_render[ind]["data"] = ma.masked_where(
                 mask, binned[counter, ...], copy=False
